@@ -50,6 +50,20 @@ pub fn configs(thorough: bool) -> Vec<(CfCfg, bool)> {
 fn main() {
     let args = parse_args();
     let mut run = Runner::new("C14", &args.tier, "model_checking");
+
+    // real (default SipHash) hashers first, with oracles that need no hash classes: independent of the model-hasher seam
+    {
+        let (rs, rv) = checks::medium::real_hasher_runs(&["cuckoo"]);
+        run.ev.set("real_hasher_runs", serde_json::json!(rs.ops));
+        let any = !rv.is_empty();
+        for v in rv {
+            run.violation(v);
+        }
+        if any {
+            run.ev.set("stopped_after_real_hasher_runs", serde_json::json!(true));
+            run.finish();
+        }
+    }
     let cfgs = configs(run.thorough());
     let timing = std::env::var("VERIF_TIMING").is_ok();
     let results = par_map(&cfgs, n_threads(), |(cfg, _heavy)| {
